@@ -15,6 +15,12 @@ CHECKS = {
  "C10": ("Table agreement, exhaustive over the 57 PDU types, 5 dispatchers (69 case labels) and every PDU literal in non-test library code: an abstract interpreter evaluates GetCommand / GenEmptyResponse / constructors under each command id the type can carry and checks response type, response-bit command, sequence propagation, setter/getter/encoded-offset agreement of the sequence field, label-to-type consistency of the dispatchers, coverage of every encodable command id, and the unsupported / never (nil,nil) return shape. Quantification over 32-bit sequence numbers and command ids is discharged symbolically (the sequence is a field-to-field copy; ids outside the label set reach the no-match path).",
          "Trusted: go/types constants; E1 for header offsets. Not decided: the SGIP reading in which all three sequence words must be echoed (the PDU interface exposes one identifier).",
          "abstract interpretation of small methods + switch-table extraction + exhaustive table agreement", "DESIGN.md section 2 C10"),
+ "C04": ("Typestate over the ConnReader interface: all 22 SSA paths of the four frame extractors are enumerated (they are loop-free), values are normalised to role expressions and branches to canonical propositions, and path rules decide: no 'incomplete' path consumes; 'incomplete' only under a proposition implying fewer buffered octets than needed (strict `<`); the single frame-returning path peeks L, establishes len>=L, discards exactly L once and checks both results; the blocking variant returns a frame only after both io.ReadFull calls reported nil, reading the body into frame[4:] and copying the prefix; L<4 is refused before any use of L; the CMPP and SMPP implementations have identical signatures. Because consumption depends only on which interface calls a path makes, this covers every chunking, truncation and fault sequence - the arrival pattern only selects the path. Level 'other': the argument is over the extractor code, with the ConnReader contract assumed.",
+         "Trusted: a concrete ConnReader honours its documented contract; io.ReadFull and binary.BigEndian semantics. Not decided: behaviour of concrete connection implementations.",
+         "exhaustive SSA path enumeration + typestate / path-signature rules", "DESIGN.md section 2 C04"),
+ "C20": ("Typestate and all-paths accounting over every exported method of packet.Writer and packet.Reader (97 SSA paths, helpers inlined): sticky-error discipline (a path entered with the error set performs no buffer operation, no counter update, no second error assignment and returns zero values; every buffer operation happens after the error field was tested nil on that path), byte accounting as linear forms (octets appended == increment of `written` on error-free paths, 0 on error paths), every error/short-count result of a library call is branched on, terminals return (nil, err) or a fresh copy, and shape rules for the inverse pairs (C-string delimiter, fixed slot = s ++ zeros(n-len(s)) refused iff len(s)>n, trimming read cuts at the first zero under idx>=0, integer widths and byte-order object agree). Universally quantified over operation arguments because the accounting is symbolic; sequences of operations follow by induction over the sticky-error invariant.",
+         "Trusted: contracts of bytebufferpool.ByteBuffer (Write/WriteString append len(arg)), bytes.Buffer.Read/ReadString, encoding/binary.Read/Write (size by static type; data unchanged on failure), make zero-fills. Not decided: concrete octet values beyond the shape rules.",
+         "exhaustive SSA path enumeration with helper inlining + symbolic (linear-form) byte accounting + shape pattern rules", "DESIGN.md section 2 C20"),
 }
 
 def main():
